@@ -7,6 +7,7 @@ import (
 	"fmt"
 	"go/token"
 	"go/types"
+	"strings"
 
 	"golang.org/x/tools/go/ssa"
 )
@@ -166,6 +167,29 @@ func checkC03(p *Prog, r *Report) {
 	rAnch.OK(fnName(rfn), rfn.Pos(), "reads the stream")
 	buf := read.Common().Args[0]
 	nV, errV := extractOf(read, 0), extractOf(read, 1)
+	/* The read buffer belongs to this stream alone. */
+	{
+		local := true
+		var why []string
+		for _, x := range valueRoots(buf, nil) {
+			switch x.Kind {
+			case "alloc":
+			case "other":
+				if _, ok := x.V.(*ssa.MakeSlice); !ok {
+					local = false
+					why = append(why, x.String())
+				}
+			default:
+				local = false
+				why = append(why, x.String())
+			}
+		}
+		if local {
+			rCopy.OK(fnName(rfn)+":buffer-per-stream", posOf(read), "the read buffer is allocated by the stream's own reader")
+		} else {
+			rCopy.Bad(fnName(rfn)+":buffer-per-stream", posOf(read), "the read buffer is shared state (%s), not allocated per stream: a reader of an earlier shell still blocked in Read can overwrite a later shell's chunk before it is copied out", strings.Join(why, ", "))
+		}
+	}
 
 	derivesFromBuf := func(v ssa.Value) (bool, bool) { /* derives, copied */
 		copied := false
